@@ -160,6 +160,8 @@ def spec_import(di, j):
             if set(j) - set(members):
                 raise Reject
             if (set(members) - set(optional)) - set(j):
+                if 'optional' not in di:
+                    raise Unclear         # frappy reads a missing "optional" key as "all optional" (C03's business)
                 raise Reject
             if any(v is None for v in j.values()):
                 raise Unclear
@@ -277,7 +279,7 @@ def gen_datainfo(rng, depth=2):
     names = rng.sample(['a', 'b', 'c', 'd'], rng.randint(1, 3))
     di = {'type': 'struct', 'members': {n: gen_datainfo(rng, depth - 1) for n in names}}
     opt = [n for n in names if rng.random() < 0.3]
-    if opt:
+    if opt or rng.random() < 0.7:
         di['optional'] = opt
     return di
 
@@ -1017,7 +1019,8 @@ def gen_line(rng, desc, dts, now):
         ident = rng.choice(['nomod:value', f'{m}:nopar', 'nomod', f'{m}:{internal_name(a)}x', f'{m}:', ':value'])
     elif r < 0.30:
         ident = None
-    res = spec_resolve(desc, action, ident)
+    # (the pinned client reads a missing identifier as module "None": keep the payload clear-cut for that datatype too)
+    res = spec_resolve(desc, action, ident if ident is not None else 'None')
     di = dts[res[3]] if res and res[2] == 'p' else dts[dt]
     t = gen_t(rng, now)
     q = '{}' if t is None else '{"t": %s}' % t
@@ -1096,6 +1099,10 @@ def gen_msgs_case(rng):
                 line = gen_line(rng, desc, dts, now)
                 try:
                     sp = spec_message({'desc': desc, 'dts': dts}, line, now)
+                    a0, i0, d0 = split_line(line)
+                    if i0 is None and d0 is not None and \
+                            spec_message({'desc': desc, 'dts': dts}, f'{a0} None {d0}', now)[0] == 'unclear':
+                        continue
                 except ValueError:
                     continue
                 if sp[0] != 'unclear' or (sp[1] == 'error name is no string' and rng.random() < 0.5):
@@ -1112,7 +1119,7 @@ def gen_msgs_case(rng):
 
 def gen_cases(seed, tier):
     rng = random.Random(seed * 1000003 + 12)
-    n = {'quick': 5000, 'thorough': 60000, 'search': 60000}[tier]
+    n = {'quick': 3900, 'thorough': 60000, 'search': 30000}[tier]
     cases = [gen_msgs_case(rng) for _ in range(n)]
     from harness import c12_e2e
     cases.extend(c12_e2e.gen_e2e_cases(rng, tier))
